@@ -269,6 +269,10 @@ struct Checker {
             for (auto &c : calls) { if (!check_maximality(c, cs)) return; total += c.seg_starts.size(); }
             if constexpr (!is_float) {
                 size_t opt = optimal_count(0, pts.size(), eps);
+                // c as the property defines it: 1 below the chunking threshold or with one thread, else min(threads, 20)
+                size_t c_allowed = (n < (size_t(1) << 15) || verif::chunks <= 1 || !par) ? 1 : size_t(std::min(verif::chunks, 20));
+                if (calls.size() > c_allowed) { run.violation(cs, "the build was split into " + std::to_string(calls.size()) + " chunks, the property allows " + std::to_string(c_allowed) + " for n=" + std::to_string(n)); return; }
+                if (total > opt + c_allowed - 1) { run.violation(cs, "build used " + std::to_string(total) + " segments, more than optimum " + std::to_string(opt) + " + c-1 with c=" + std::to_string(c_allowed)); return; }
                 if (calls.size() == 1 && total != opt) { run.violation(cs, "sequential build used " + std::to_string(total) + " segments, optimum is " + std::to_string(opt)); return; }
                 if (total > opt + calls.size() - 1) { run.violation(cs, "chunked build used " + std::to_string(total) + " segments, more than optimum " + std::to_string(opt) + " + chunks-1"); return; }
             }
@@ -447,6 +451,9 @@ int main(int argc, char **argv) {
                 for (long p : ps) for (long d : (thorough ? std::vector<long>{0, 1, 7} : std::vector<long>{0}))
                     for (long w = 0; w < 4096; w += 64) { Task t; t.key = k; t.kind = 1; t.eps = e; t.n = 32768 + d; t.p = p; t.seam = 0; t.w_lo = w; t.w_hi = w + 64; tasks.push_back(t); }
             }
+            // below the chunking threshold the builder must stay sequential whatever the thread count
+            for (long nn : {32767L, 20000L, 8192L, 4096L}) for (long p : {2L, 4L, 15L, 20L})
+                for (long w = 0; w < 4096; w += 1024) { Task t; t.key = k; t.kind = 1; t.eps = 1; t.n = nn; t.p = p; t.seam = 0; t.w_lo = w + 77; t.w_hi = w + (thorough ? 93 : 81); tasks.push_back(t); }
             for (size_t e : (thorough ? std::vector<size_t>{1, 8, 64, 1024} : std::vector<size_t>{1, 8, 64})) {
                 for (long rep : (thorough ? std::vector<long>{1, 50, 400} : std::vector<long>{1, 50})) {
                     if (e == 1024 && rep > 50) continue;
